@@ -8,6 +8,18 @@ use proptest::prelude::*;
 pub const PROPS: &[&str] = &["C04"];
 
 pub fn eval(sc: &Scenario) -> CaseResult {
+    eval_out(sc).1
+}
+
+pub fn eval_drop_alive(sc: &Scenario) -> CaseResult {
+    let (out, mut r) = eval_out(sc);
+    let dropped = out.peers[0].cs.iter().any(|c| c.0);
+    r.nontrivial = dropped && out.peers[0].current_frame > 80;
+    r.classes.push("remote_dropped_while_alive");
+    r
+}
+
+fn eval_out(sc: &Scenario) -> (crate::sim::world::Outcome, CaseResult) {
     let (out, mut r) = eval_core(sc, PROPS, false);
     if r.violation.is_none() {
         // a spectator speculates with a window of 0: it never simulates a frame its host has not confirmed
@@ -36,7 +48,7 @@ pub fn eval(sc: &Scenario) -> CaseResult {
     r.counters.push(("max_gap_over_confirmed", out.peers.iter().map(|p| p.max_gap.max(0) as u64).max().unwrap_or(0)));
     r.counters.push(("first_sims_at_window_limit", eq));
     r.counters.push(("lockstep_stalls", ls));
-    r
+    (out, r)
 }
 
 pub fn gen(tier: Tier) -> BoxedStrategy<Scenario> {
@@ -102,6 +114,46 @@ pub fn after_drop_case(i: u64, seed: u64) -> Scenario {
     sc
 }
 
+/// two peers (plus sometimes a spectator on the dropping side); peer 0 drops the remote player with
+/// `disconnect_player` while the remote is alive and keeps sending for a while (its later input packets arrive at
+/// an endpoint that is disconnected but not yet shut down); mostly lockstep, partly through the wait helper
+pub fn drop_alive_case(i: u64, seed: u64) -> Scenario {
+    let r = crate::sim::types::mix(seed ^ 0xa11e, i);
+    let mut sc = Scenario::basic(r, 2);
+    sc.max_pred = [0u8, 0, 0, 1, 2, 8][(r % 6) as usize];
+    let d = [0u8, 1, 2, 3][((r >> 4) % 4) as usize];
+    for p in sc.peers.iter_mut() {
+        p.delay = d;
+        p.locals = if (r >> 8) % 4 == 0 { 2 } else { 1 };
+    }
+    let lat = [0u16, 5, 20, 40, 70][((r >> 12) % 5) as usize];
+    sc.link = crate::sim::net::LinkProfile { loss: [0u8, 0, 10][((r >> 16) % 3) as usize], dup: 0, lat_min: lat, lat_max: lat + [0u16, 0, 30][((r >> 18) % 3) as usize] };
+    sc.sched = ((r >> 20) % 2) as u8;
+    sc.predictor = ((r >> 21) % 2) as u8;
+    sc.notify_ms = 500;
+    sc.timeout_ms = 2000;
+    let t1 = 50 + ((r >> 24) % 150) as u32;
+    let handle = sc.peers[0].locals;
+    sc.ops.push(Op::Disconnect { tick: t1, peer: 0, handle });
+    // the dropped peer keeps running: for a few ticks, for a second, or until it has timed out peer 0 and plays on alone
+    match (r >> 32) % 3 {
+        0 => sc.ops.push(Op::Kill { tick: t1 + 2 + ((r >> 36) % 20) as u32, peer: 1 }),
+        1 => sc.ops.push(Op::Kill { tick: t1 + 60 + ((r >> 36) % 60) as u32, peer: 1 }),
+        _ => {}
+    }
+    if (r >> 44) % 3 == 0 {
+        sc.specs.push(SpecSpec { host: 0, max_behind: 10, catchup: 2, slow: 0, window: sc.max_pred });
+    }
+    if sc.max_pred == 0 && (r >> 48) % 2 == 0 {
+        for p in sc.peers.iter_mut() {
+            p.use_wait = true;
+        }
+    }
+    sc.ticks = t1 + 240;
+    sc.settle = 60;
+    sc
+}
+
 pub fn run(ctx: &Ctx) -> PropReport {
     let mut rep = PropReport::new("C04", "exploration");
     let tier = ctx.tier;
@@ -111,6 +163,9 @@ pub fn run(ctx: &Ctx) -> PropReport {
     rep.part(|| run_enum(ctx, "starved_after_drop",
         "seeded 3-peer sessions (windows {0,1,2,4,8,12}, sparse, delays, 1-2 local players): a peer with a lower handle than a still-connected one dies and is timed out by both survivors with the same cut-off, then the connected higher-handle peer's link to the observer is cut for 0.3-0.9 s (below the timeout): same oracle - the observer must stall at the window / not advance in lockstep",
         ctx.tier.pick(1500, 8000), move |i| after_drop_case(i, seed), eval, false));
+    rep.part(|| run_enum(ctx, "drop_alive",
+        "seeded 2-peer sessions (windows {0,0,0,1,2,8}, delays 0..=3, 1-2 local players, latency 0-100 ms, some loss, sometimes a spectator, partly through the wait helper): peer 0 drops the remote player with disconnect_player while the remote is alive and keeps sending (for a few ticks / a second / until it has timed out peer 0): same oracle - in lockstep no Save/Load and only Confirmed or Disconnected inputs before and after the drop, a call without Advance leaves current_frame() unchanged; non-trivial = the drop was carried out and peer 0 advanced > 20 frames afterwards",
+        ctx.tier.pick(2000, 10000), move |i| drop_alive_case(i, seed), eval_drop_alive, false));
     rep.floors.push(("starved".into(), 0.3));
     rep.assumptions = vec!["advance_frame_with_wait runs under an auto-ticking virtual clock (100 us per clock read) so its spin loop terminates".into()];
     rep
